@@ -18,9 +18,11 @@
    or ack frame from its address) + active_timeout_ms — the "last heard" clock is determined by the datagrams alone —
    and the timeout pass of step() forgets a listed active entry and reports Error(Timeout) exactly when that deadline
    has been reached, leaving every other entry as it was; every active entry is in the list the pass walks (at the pass
-   of every step of every history). Keepalive sufficiency (two endpoints and a network) is decided on the implementation by the timers /
+   of every step of every history). The keepalive exchange step by step (Keepalive.v): an idle endpoint with keepalive sends a sync frame when the
+   interval has passed, every sync frame handled arms the reply flag, and a flush with the flag armed emits an ack frame.
+   Keepalive sufficiency (two endpoints and a network) is decided on the implementation by the timers /
    lifecycle streams with the timeout oracles and through the correspondence under the virtual clock (partial). *)
-From UF Require Import Consts Base Frame Codec Sender Heap HalfConn Endpoint EndpointProofs EndpointTotal HandshakeHistory TimeoutHistory ServerGrammar ServerTimeouts ServerActive.
+From UF Require Import Consts Base Frame Codec Sender Heap HalfConn Endpoint EndpointProofs EndpointTotal HandshakeHistory TimeoutHistory ServerGrammar ServerTimeouts ServerActive Keepalive.
 
 Theorem C10_client_timer_semantics :
   forall c a now,
@@ -262,6 +264,28 @@ Example C10_server_active_run :
   match server_step (fst st) 6499 [] [] with Ok (_, evs, _, _) => evs = [] | _ => False end /\
   match server_step (fst st) 6500 [] [] with Ok (s', evs, _, _) => evs = [EvError 7 0] /\ sv_active s' = [] | _ => False end.
 Proof. vm_compute. intuition discriminate. Qed.
+
+(* ---------- keepalive, per endpoint (Keepalive.v) ---------- *)
+(* with keepalive enabled an idle endpoint sends a sync frame once the interval (and the sync timeout) has passed *)
+Theorem C10_keepalive_due :
+  forall h out k,
+  h_keepalive h = Some k -> N.max (h_rto h) MIN_SYNC_TIMEOUT_MS <= h_now h - h_sync_base h -> k <= h_now h - h_sync_base h ->
+  (0 <= h_credit h)%Z ->
+  exists bytes, emit_sync_frame h out =
+    (set_sync_base (set_credit h (h_credit h - Z.of_N (len bytes))%Z) (h_now h), out ++ [bytes], true) /\
+    exists nf np, bytes = write_sync nf np.
+Proof. exact keepalive_due. Qed.
+
+(* every sync frame handled arms the reply flag ... *)
+Theorem C10_sync_arms_reply : forall h nf np, h_sync_reply (hc_handle_sync_frame h nf np) = true.
+Proof. exact sync_arms_reply. Qed.
+
+(* ... and a flush with the flag armed and non-negative credit emits at least one ack frame, whatever there is to acknowledge *)
+Theorem C10_reply_emits_ack :
+  forall h out h' out' ok, emit_ack_frames h out = Ok (h', out', ok) -> h_sync_reply h = true -> (0 <= h_credit h)%Z ->
+  (length out < length out')%nat.
+Proof. exact reply_emits_ack. Qed.
+Print Assumptions C10_reply_emits_ack.
 
 Check C10_client_handshake_timeout_history.
 Check C10_server_timer_budget.
